@@ -222,6 +222,10 @@ func (e StdEng) reduce(
 		typ := at.t.Type
 		monotonic, incr1 := IsMonotonicInts(along) // if both are true, then it means all axes are accounted for, then it'll return a scalar value
 		if (monotonic && incr1 && len(along) == a.Dims()) || len(along) == 0 {
+			// the monotonic kernels fold the storage as it lies, gaps included
+			if !at.DataOrder().IsContiguous() || !at.old.IsZero() {
+				return nil, errors.Errorf("%s over all axes does not (yet) support non-contiguous tensors", op)
+			}
 			var ret interface{}
 			if ret, err = monotonicMethod(typ, hdr); err != nil {
 				return
